@@ -51,6 +51,9 @@ def flodym_rev():
 
 
 # ----------------------------------------------------------------------------- worker side
+_PROC_TASKS = []  # tasks this OS process has executed so far (workers are forked from a parent that executes none)
+
+
 def _work_chunk(args):
     prop, seed, tier, tasks, deadline = args
     eng = _ENGINE
@@ -69,6 +72,10 @@ def _work_chunk(args):
             try:
                 res = eng.run_task(task, prop, seed, tier)
                 res["task"] = task
+                if res.get("violation"):
+                    # should the violation not reproduce from its own op list, the runs this process executed before it are
+                    # the rest of its history (state that leaks between objects through module / class level caches)
+                    res["proc_history"] = [{k: v for k, v in t.items() if k != "keep"} for t in _PROC_TASKS]
                 out.append(res)
             except _RunTimeout:
                 out.append({"harness_error": f"run exceeded {RUN_TIMEOUT_S}s", "task": task})
@@ -78,6 +85,7 @@ def _work_chunk(args):
                 out.append({"harness_error": f"{type(e).__name__}: {e}\n{traceback.format_exc()}", "task": task})
             finally:
                 signal.setitimer(signal.ITIMER_REAL, 0)
+                _PROC_TASKS.append(task)
     finally:
         sys.stdout = old_stdout
         devnull.close()
@@ -207,7 +215,62 @@ def replay(eng, prop, path, quiet=False):
     return out
 
 
-def _verify_replay_fresh(prop, path, clause, step, digest):
+def _history_violation(prop, eng, seed, tier, rep):
+    """a violation that depends on the runs its process executed before: find a short suffix of that process history which,
+    executed in a fresh interpreter, ends in the same violation; returns the replay path or None"""
+    clause = rep["violation"]["clause"]
+    last = {k: v for k, v in rep["task"].items() if k != "keep"}
+    seq = list(rep["proc_history"]) + [last]
+    os.makedirs(REPLAY_DIR, exist_ok=True)
+
+    def attempt(tasks):
+        doc = {"format": "process-history", "property": prop, "engine": eng.NAME, "seed": seed, "tier": tier, "clause": clause,
+               "tasks": tasks, "violation": {k: rep["violation"].get(k) for k in ("step", "detail", "tags")},
+               "note": "the tasks are executed in this order in one fresh interpreter; the last one must end in the violation",
+               "flodym_rev": flodym_rev()}
+        d8 = hashlib.sha256(json.dumps(tasks, sort_keys=True).encode()).hexdigest()[:8]
+        path = os.path.join(REPLAY_DIR, f"{prop}-{seed}-hist-{d8}.json")
+        with open(path, "w") as f:
+            f.write(json.dumps(doc, indent=1, sort_keys=True) + "\n")
+        ok = True
+        for _ in range(2):  # must fail the same way twice
+            same, got = _verify_replay_fresh(prop, path, clause, None, None, loose=True)
+            ok = ok and same
+            if not ok:
+                break
+        if not ok:
+            os.unlink(path)
+            return None
+        return path
+
+    best, k, tried = None, 1, 0
+    while tried < 12:
+        cand = seq[-(k + 1):] if k + 1 < len(seq) else seq
+        tried += 1
+        path = attempt(cand)
+        if path:
+            best = (cand, path)
+            break
+        if len(cand) == len(seq):
+            break
+        k *= 2
+    if not best:
+        return None
+    cand, path = best
+    i = 0
+    while len(cand) <= 9 and i < len(cand) - 1 and tried < 24:  # drop single earlier runs
+        smaller = cand[:i] + cand[i + 1:]
+        tried += 1
+        p2 = attempt(smaller)
+        if p2:
+            os.unlink(path)
+            cand, path = smaller, p2
+        else:
+            i += 1
+    return path
+
+
+def _verify_replay_fresh(prop, path, clause, step, digest, loose=False):
     """re-execute the replay file in a fresh interpreter; must reproduce clause, step, digest"""
     cmd = [sys.executable, os.path.join(VERIF, "check"), prop, "--replay", path]
     env = dict(os.environ)
@@ -216,6 +279,8 @@ def _verify_replay_fresh(prop, path, clause, step, digest):
     for line in p.stdout.splitlines():
         if line.startswith("REPLAY-RESULT "):
             got = json.loads(line[len("REPLAY-RESULT "):])
+            if loose:
+                return got["clause"] == clause, got
             return got["clause"] == clause and got["step"] == step and got["digest"] == digest, got
     return False, {"stdout": p.stdout[-2000:], "stderr": p.stderr[-2000:]}
 
@@ -342,6 +407,16 @@ def run_check(eng, prop, tier, seed, workers=None, budget_s=None, max_tasks=None
             res = eng.execute(small, prop)
             v = res.get("violation")
         if not v:
+            # not a function of the run's own operations: try it as a function of what its process had executed before
+            hpath = _history_violation(prop, eng, seed, tier, rep) if rep.get("proc_history") is not None else None
+            if hpath:
+                v0 = rep["violation"]
+                print(f"  clause={v0['clause']} step={v0['step']} runs_hit={n} detail={v0['detail']} "
+                      f"[needs the runs executed before it in the same process: see the replay file]")
+                print(f"VIOLATION property={prop} replay={hpath}", flush=True)
+                n_viol_lines += 1
+                exit_code = 1
+                continue
             harness_errors.append(f"violation {key} of task {rep['task']} did not reproduce in the parent process")
             continue
         small = dict(small)
@@ -448,7 +523,16 @@ def run_replay(eng, prop, path):
     try:
         with open(path) as f:
             doc = json.load(f)
-        res = eng.execute(doc["run"], prop)
+        if doc.get("format") == "process-history":
+            for t in doc["tasks"][:-1]:
+                try:
+                    eng.run_task(dict(t), prop, doc["seed"], doc["tier"])
+                except Exception:  # noqa - only the state these runs leave behind matters here
+                    pass
+            res = eng.run_task(dict(doc["tasks"][-1]), prop, doc["seed"], doc["tier"])
+            res.setdefault("digest", None)
+        else:
+            res = eng.execute(doc["run"], prop)
     finally:
         sys.stdout = old
         devnull.close()
